@@ -204,6 +204,12 @@ def run(ctx):
             res.add("D-SUB", v.fi.short, norm(c), "adjacency", "ok" if good else ("violation" if bad else "unknown"), "" if good else "the centrality is not computed from the adjacency matrix of the given hypergraph", loc(fi, c))
         txt = " ".join(norm(fi.node) for fi, _ in bodies)
         res.add("D-SUB", v.fi.short, "np.linalg.eigh / special.logsumexp", "functional", "ok" if "eigh" in txt and "logsumexp" in txt else "unknown", "", loc(v.fi, v.fi.node))
+    with res.guard("N-FANCYAUG in the eigenvector centralities"):
+        from ..lints import check_fancy_augassign
+
+        res.rules["N-FANCYAUG"] = "co-membership counts are accumulated per hyperedge: no `+=` through array-valued indices (repeated pairs would be written once)"
+        for name in ("CEC_centrality", "ZEC_centrality", "HEC_centrality"):
+            check_fancy_augassign(ctx, res, f"eigen_centralities.{name}")
     # ---- D-LABELIDX: the eigenvector centralities index their vectors by label (exemption) - the returned dict must
     with res.guard("D-LABELIDX: the eigenvector centralities index their vectors by label (exemption) - the returned dict must"):
         # pair each label with the entry at THAT label, not with the entry at its insertion position
